@@ -210,7 +210,7 @@ template <class T> struct Lim;
 template <> struct Lim<float> {
   static constexpr long double mx = FLT_MAX, mn = FLT_MIN, tol = 1e-6L, lo = 1e-30L, hi = 1e30L;
   static constexpr long kexp = 38;
-  static constexpr size_t lead = 13;  // first non-zero fraction digit must be within this many digits
+  static constexpr size_t lead = 12;  // class frac-leading-zeros-19: at least this many leading fraction zeros
 };
 template <> struct Lim<double> {
   static constexpr long double mx = DBL_MAX, mn = DBL_MIN, tol = 1e-14L, lo = 1e-300L, hi = 1e300L;
@@ -638,7 +638,12 @@ int main(int argc, char **argv) {
     std::function<void(size_t)> rec = [&](size_t depth) {
       Case c;
       c.kind = "exh";
-      float_ops(&c, cur, 0);
+      if (cur.size() >= 6) {  // thorough tier, longest strings: two ops (keeps the run near 10 min)
+        c.ops.push_back("strtod_check_range " + vh::hex(cur) + " EINVAL");
+        c.ops.push_back("stof " + vh::hex(cur) + " ERANGE");
+      } else {
+        float_ops(&c, cur, 0);
+      }
       if (cur.size() <= 3) int_ops(&c, cur);
       R.run_case(c);
       if (depth == maxlen) return;
